@@ -37,6 +37,12 @@ CHECKS = {
             'section, each reached through a generated CU; decode extent compared with the declared extent.',
             'Trusted: vf/enc/lineprog.py, vf/ref/lineprog.py (my transcription of 6.2.5), vf/enc/dwarf.py for the CUs, Hypothesis.',
             'DESIGN.md 4/C05'),
+    'C06': ('Hypothesis-generated .debug_frame/.eh_frame models + opcode x alignment x augmentation x pointer-encoding sweep, independent encoder, reference table interpreter transcribed from DWARF v5 6.4',
+            'Exploration: entry list and kinds (CIE/FDE/zero terminator), header fields, augmentation strings/data, pointer-encoded initial location / range / LSDA '
+            '(absolute and pc-relative in every basic encoding), CIE links incl. FDE-before-CIE, the instruction split of every DW_CFA opcode, and the decoded table '
+            '(rows, CFA rule, register rules, restore to CIE rules, remember/restore state, distinct code/data alignment factors) against the reference interpreter.',
+            'Trusted: encoder in vf/checks/c06.py, vf/ref/cfi.py (my transcription of 6.4.2), Hypothesis. 64-bit .eh_frame entries and v4 CIEs with a non-default address size are outside the domain.',
+            'DESIGN.md 4/C06'),
     'C12': ('Hypothesis-generated operation sequences + every-operation x every-cell sweep from an independently transcribed operation table; round-trip and re-encoding; exhaustive name/opcode bijection',
             'Exploration: parse_expr output (opcode, name, operand values with signedness/width, offsets, nested entry_value blocks to depth 4) equals the generated '
             'sequence for all 174 listed operations in 32 configuration cells with boundary operands and non-minimal LEB128; re-encoding reproduces the bytes; the '
